@@ -48,6 +48,7 @@ def setup(ctx):
     ctx.require("monitor", "faults_fired", 93)
     ctx.require("monitor", "protocol_uploads", 24)
     ctx.require("monitor", "sequence_requests", 50)
+    ctx.require("monitor", "refused_by_middleware", 30)
 
 
 LIMIT = 64
@@ -359,6 +360,71 @@ def run_protocol(ctx, rng):
             close_loop(loop)
             shutil.rmtree(base, ignore_errors=True)
 
+def run_protocol_refused(ctx, rng):
+    """Through the protocol, behind a middleware chain: an upload or delete that the chain refuses - with or
+    without a message, by a shipped component or a scripted one - is answered with a non-success status and
+    changes nothing on disk; an admitted one is stored exactly."""
+    from nauyaca.server import middleware as M
+    from nauyaca.server.handler import FileUploadHandler
+
+    from vf.sim import SpyMiddleware, effect_probe
+
+    chains = {
+        "acl-deny": lambda: M.MiddlewareChain([M.AccessControl(M.AccessControlConfig(deny_list=["0.0.0.0/0"]))]),
+        "rate-exhausted": lambda: M.MiddlewareChain([M.RateLimiter(M.RateLimitConfig(capacity=0, refill_rate=1 / 4096))]),
+        "cert-required": lambda: M.MiddlewareChain([M.CertificateAuth(M.CertificateAuthConfig(path_rules=[M.CertificateAuthPathRule(prefix="/", require_cert=True)]))]),
+        "scripted-deny-with-message": lambda: M.MiddlewareChain([SpyMiddleware({"outcome": "deny", "response": "53 Scripted\r\n"}, [], None)]),
+        "scripted-deny-without-message": lambda: M.MiddlewareChain([SpyMiddleware({"outcome": "deny", "response": None}, [], None)]),
+        "scripted-slow-deny": lambda: M.MiddlewareChain([SpyMiddleware({"outcome": "deny", "delay": 0.2, "response": "44 Slow\r\n"}, [], None)]),
+        "scripted-raise": lambda: M.MiddlewareChain([SpyMiddleware({"outcome": "raise"}, [], None)]),
+        "allow": lambda: M.MiddlewareChain([M.AccessControl(M.AccessControlConfig(deny_list=["203.0.113.0/24"]))]),
+    }
+    for cname, mk in chains.items():
+        for path, pclass in (("/new.txt", "plain-new"), ("/existing.txt", "existing-file"), ("/sub/new.gmi", "nested-new")):
+            for size in (0, 5):
+                base = tempfile.mkdtemp(prefix="vf-c14m-")
+                try:
+                    up = build_tree(rng, base)
+                    h = FileUploadHandler(up, max_size=LIMIT, enable_delete=True)
+                    body = bytes(rng.getrandbits(8) for _ in range(size))
+                    line = f"titan://localhost{path};size={size};mime=text/plain\r\n".encode()
+                    before = fstree.snapshot([base])
+
+                    class Patched:
+                        def __call__(self):
+                            c = mk()
+                            for comp in getattr(c, "middlewares", []):
+                                if isinstance(comp, SpyMiddleware):
+                                    import asyncio
+
+                                    comp.loop = asyncio.get_event_loop()
+                            return c
+
+                    rows = effect_probe(Patched(), [("192.0.2.9", 40000)], [line + body], upload=h, settle=1.0)
+                    after = fstree.snapshot([base])
+                    status = rows[0][2]
+                    from nauyaca.protocol.request import TitanRequest
+
+                    req = TitanRequest.from_line(line[:-2].decode())
+                    req.content = body
+                    ctx.count("monitor", "protocol_uploads_behind_middleware")
+                    if cname != "allow":
+                        ctx.count("monitor", "refused_by_middleware")
+                        d = fstree.diff(before, after)
+                        wit = {"via": "L1+middleware", "chain": cname, "request_line": line[:-2].decode(), "status": status, "diff": [(os.fsdecode(p).replace(base, "<base>"), c) for p, c, _, _ in d][:6]}
+                        if status is None or 20 <= status <= 29:
+                            ctx.violation(f"refused-by-middleware-but-answered:{status}:chain={cname}", "the chain refuses, the answer is not a refusal", wit)
+                        elif d:
+                            ctx.violation(f"change-on-failure:refused-by-middleware:chain={cname}:path={pclass}", f"status {status} from the chain, yet the upload directory changed", wit)
+                        else:
+                            ctx.count("outcome", f"refused-by-middleware-clean:{cname}")
+                    else:
+                        check_outcome(ctx, base, up, before, after, [], req, status, {"tokens": None, "max_size": LIMIT, "types": None, "delete": True}, pclass, "none", None, via="L1+middleware")
+                    ctx.case(("L1-mw", cname, pclass, size, status), True, sample={"via": "L1+middleware", "chain": cname, "line": line[:80], "status": status})
+                finally:
+                    shutil.rmtree(base, ignore_errors=True)
+
+
 def run_sequence(ctx, rng):
     """One handler object and one tree serve several requests in a row (as in a running server): every
     request is judged on the snapshot taken immediately before and after it, whatever preceded it."""
@@ -466,3 +532,5 @@ def run(ctx):
         ctx.exhaustive = None
     run_protocol(ctx, rng)
     run_sequence(ctx, rng)
+    if ctx.shard == 2 or ctx.nshards == 1:
+        run_protocol_refused(ctx, rng)
